@@ -2,12 +2,14 @@ import ZChain.Drv.Util
 import ZChain.Model.BlockGen
 /-! Line driver for the block generation / verification model (C45).
 
-`init <feeOn 0|1> <maxBlockCost> <maxByteSize> <minBlockSize> <minTxnFee> <miner id> <accts|-> <builtins|-> @…`
+`init <feeOn 0|1> <maxBlockCost> <maxByteSize> <minBlockSize> <minTxnFee> <miner id> <tol> <prevDate> <accts|-> <builtins|-> @…`
+   all dates are seconds relative to the generator's clock at the start of the case (`now = 0`); `prevDate` is the
+   creation date of the previous block, `tol` = TXN_TIME_TOLERANCE
    accts = `id:bal:nonce,…`; builtins = `<p|c|r|s>~<cost>~<res>~<outLen>` joined by `/` (payFees, generate_challenge,
    blobber_block_rewards, commit_settings_changes — the order `buildInTxns` creates them in)
-`txn <send|data|sc|invalid> <sender> <to> <value> <fee> <nonce> <cost|x> <exempt 0|1> <bytes> <outLen> <late 0|1> <bname -|p|c|r|s> <res> @…`
+`txn <send|data|sc|invalid> <sender> <to> <value> <fee> <nonce> <cost|x> <exempt 0|1> <bytes> <outLen> <created> <bname -|p|c|r|s> <res> @…`
    appends a transaction to the pool; the pool is iterated in the order of the `txn` lines; res as in the LEDGER driver
-`gen <waitOver 0|1>`  →  `gen-ok t=<idx|b<kind>>:<s|f>:<nonce>,… a=… s=…` | `gen-err <class>`
+`gen <waitOver 0|1>`  →  `gen-ok d=<block date> t=<idx|b<kind>>:<s|f>:<nonce>,… a=… s=…` | `gen-err <class>`
 `verify`              →  `ok a=… s=…` | `fail <class>` | `no-block`
 Words starting with `@` are for the implementation side only (function names, padding) and are ignored here.
 The fee estimate is computed from the cost estimate with the constants of the repository's 0chain.yaml
@@ -23,6 +25,7 @@ structure DS where
   prior : St
   pool : List PTxn
   bi : Builtins
+  prevDate : Int
   blk : Option Block
 
 def insertSorted (x : Nat × String) : List (Nat × String) → List (Nat × String)
@@ -106,7 +109,7 @@ def parseBuiltin (miner : Id) (w : String) : Option (BuiltinKind × PTxn) :=
       -- payFees goes to the miner contract (id 0), the other three to the storage contract (id 2); fee 0
       let to : Id := match k with | .payFees => 0 | _ => 2
       some (k, { key := 0, txn := { sender := miner, to := to, toValid := true, value := 0, fee := 0, nonce := 0, typ := .sc },
-                 res := fun _ => r, outLen := fun _ => o, cost := some c, estFee := feeOf c, exempt := false, bytes := 0, late := false,
+                 res := fun _ => r, outLen := fun _ => o, cost := some c, estFee := feeOf c, exempt := false, bytes := 0, created := 0,
                  bname := some k })
     | _, _, _, _ => none
   | _ => none
@@ -130,28 +133,28 @@ def showVErr : VErr → String
 
 def step (d : DS) (ws0 : List String) : DS × String :=
   match model ws0 with
-  | ["init", fee, maxCost, maxBytes, minSize, minFee, miner, accts, bis] =>
-    match parseBool fee, maxCost.toInt?, maxBytes.toInt?, minSize.toInt?, minFee.toNat?, miner.toNat? with
-    | some fee, some maxCost, some maxBytes, some minSize, some minFee, some miner =>
+  | ["init", fee, maxCost, maxBytes, minSize, minFee, miner, tol, prevDate, accts, bis] =>
+    match parseBool fee, maxCost.toInt?, maxBytes.toInt?, minSize.toInt?, minFee.toNat?, miner.toNat?, tol.toInt?, prevDate.toInt? with
+    | some fee, some maxCost, some maxBytes, some minSize, some minFee, some miner, some tol, some prevDate =>
       let a := if accts = "-" then some [] else parseList parseAcct (accts.splitOn ",")
       let b := if bis = "-" then some [] else parseList (parseBuiltin miner) (bis.splitOn "/")
       match a, b with
       | some a, some b =>
         -- `buildInTxns` creates the fee transaction exactly when fees are enabled
         if (b.any (fun x => x.1 = BuiltinKind.payFees)) != fee then (d, "bad-op") else
-        ({ cfg := ⟨fee, maxCost, maxBytes, minSize, minFee, miner⟩, prior := ⟨a, []⟩, pool := [], bi := mkBuiltins b, blk := none }, "ok")
+        ({ cfg := ⟨fee, maxCost, maxBytes, minSize, minFee, miner, tol⟩, prior := ⟨a, []⟩, pool := [], bi := mkBuiltins b, prevDate := prevDate, blk := none }, "ok")
       | _, _ => (d, "bad-op")
-    | _, _, _, _, _, _ => (d, "bad-op")
-  | ["txn", typ, sender, to, value, fee, nonce, cost, exempt, bytes, out, late, bname, res] =>
+    | _, _, _, _, _, _, _, _ => (d, "bad-op")
+  | ["txn", typ, sender, to, value, fee, nonce, cost, exempt, bytes, out, created, bname, res] =>
     match parseTyp typ, sender.toNat?, to.toNat?, value.toNat?, fee.toNat?, nonce.toInt?, parseBool exempt, bytes.toNat?, out.toNat? with
     | some typ, some sender, some to, some value, some fee, some nonce, some exempt, some bytes, some out =>
       let c : Option (Option Int) := if cost = "x" then some none else (cost.toInt?).map some
       let bn : Option (Option BuiltinKind) := if bname = "-" then some none else (parseKind bname).map some
-      match c, bn, parseBool late, parseRes res with
-      | some c, some bn, some late, some r =>
+      match c, bn, created.toInt?, parseRes res with
+      | some c, some bn, some created, some r =>
         let t : Txn := { sender := sender, to := to, toValid := true, value := value, fee := fee, nonce := nonce, typ := typ }
         let ef : Nat := if exempt then 0 else feeOf (c.getD 0)
-        let p : PTxn := ⟨d.pool.length, t, fun _ => r, fun _ => out, c, ef, exempt, bytes, late, bn⟩
+        let p : PTxn := ⟨d.pool.length, t, fun _ => r, fun _ => out, c, ef, exempt, bytes, created, bn⟩
         ({ d with pool := d.pool ++ [p] }, "ok")
       | _, _, _, _ => (d, "bad-op")
     | _, _, _, _, _, _, _, _, _ => (d, "bad-op")
@@ -160,13 +163,13 @@ def step (d : DS) (ws0 : List String) : DS × String :=
     | none => (d, "bad-op")
     | some wo =>
       let n := d.pool.length
-      match generate d.cfg d.prior d.pool d.bi wo ((n + 1) * (n + 1) + n) with
+      match generate d.cfg 0 d.prevDate d.prior d.pool d.bi wo ((n + 1) * (n + 1) + n) with
       | .error .builtinCost => ({ d with blk := none }, "gen-err bicost")
       | .error .iterError => ({ d with blk := none }, "gen-err iter")
       | .error .insufficient => ({ d with blk := none }, "gen-err insufficient")
       | .ok g =>
-        ({ d with blk := some (blockOf g) },
-         "gen-ok t=" ++ ",".intercalate (g.incl.map showEntry) ++ " " ++ showState g.st)
+        ({ d with blk := some (blockOf (blockDate 0 d.prevDate) g) },
+         s!"gen-ok d={blockDate 0 d.prevDate} t=" ++ ",".intercalate (g.incl.map showEntry) ++ " " ++ showState g.st)
   | ["verify"] =>
     match d.blk with
     | none => (d, "no-block")
@@ -177,7 +180,7 @@ def step (d : DS) (ws0 : List String) : DS × String :=
   | _ => (d, "bad-op")
 
 def init : DS :=
-  { cfg := ⟨true, 0, 0, 0, 0, 0⟩, prior := ⟨[], []⟩, pool := [], bi := ⟨none, none, none, none⟩, blk := none }
+  { cfg := ⟨true, 0, 0, 0, 0, 0, 0⟩, prior := ⟨[], []⟩, pool := [], bi := ⟨none, none, none, none⟩, prevDate := 0, blk := none }
 
 def run : IO Unit := ZChain.Drv.runLoop step init
 
